@@ -133,6 +133,18 @@ class ExplorerScriptSsbCompiler:
         :raises: SsbCompilerError: On logical compiling errors
         :raises: ValueError: On misc. unexpected compilation errors
         """
+        try:
+            return self._compile(explorerscript_src, file_name, macros_only, original_base_file)
+        except RecursionError as e:
+            self.routine_infos = None
+            self.routine_ops = None
+            self.named_coroutines = None
+            self.source_map = None
+            raise SsbCompilerError(_("The script is nested too deeply to be compiled.")) from e
+
+    def _compile(
+        self, explorerscript_src: str, file_name: str, macros_only: bool, original_base_file: str | None
+    ) -> ExplorerScriptSsbCompiler:
         logger.debug(
             "<%d> Compiling ExplorerScript (-> %s)... - Macros only:%d, base:%s",
             id(self),
